@@ -461,6 +461,8 @@ def main(prop, tier):
         rc, out = run([seq_exe, "explore", str(cap), str(nr), str(mw), str(acc), str(maxst), pre, "400000"], timeout=1200)
         try:
             r = json.loads(out.strip().splitlines()[-1])
+            if 'chunks' not in r:
+                raise ValueError("not a result line")
         except Exception:
             crash_or_broken(rc, out, "chan_seq_explore", "chan_seq exploration (cap=%d readers=%d)" % (cap, nr))
         seq_traces += [pre + ".%04d.ndjson" % i for i in range(r["chunks"])]
